@@ -53,6 +53,21 @@ def run (t : Tier) : Emit Unit := do
     let spec := tablePositions m [0, 0x1000, 0x1001] (·.sectionsEnd)
     emit "C02" (demuxCase bs { view := .tablepos, size := if auto then 0 else 188 } none (some spec) "tables-no-readahead")
 
+  -- units whose reassembled payload is exactly as long as the buffer the previous unit left in the byte pool (the pool
+  -- starts at 1024 bytes and grows to the allocator's size classes: a unit of c-1 bytes leaves a c-byte buffer), and one
+  -- byte shorter / longer: the payload is delivered whole
+  for c in [1024, 1152, 1280, 1536, 2048, 3072, 4096, 8192, 66000] do
+    let mut units : List TSUnit := []
+    -- (66000: one unit beyond 64 KiB, then a small one)
+    for total in (if c = 66000 then [c, 500] else [c - 1, c, c, c + 1, c]) do
+      let n := total - 9
+      let payload ← liftGen (randBytes n)
+      let h : PESHeader := { optionalHeader := some { markerBits := 2, headerLength := 0 }, streamID := 0xe0, packetLength := 0 }
+      let bytes := pesEncode h 0 payload
+      let chunks := List.replicate (bytes.length / 184) 184 ++ (if bytes.length % 184 = 0 then [] else [bytes.length % 184])
+      units := units ++ [({ pid := 0x100, payload := bytes, data := [{ pes := some { data := payload, header := h } }], psi := false, chunks := chunks, firstAF := none } : TSUnit)]
+    let m : StreamModel := { units := units, schedule := [] }
+    emit "C02" (demuxCase m.bytes { view := .perpid } none (some (showPerPID m.expected 0 "eof")) "unit-exactly-fills-the-pooled-buffer")
   -- PES PIDs at every single-bit distance from the PMT PID: none of them is a table PID
   for half in [0, 1] do
     let nbrs := (((List.range 13).map fun k => 0x1000 ^^^ (2 ^ k)).filter fun p => p != 0 && p < 0x1fff).drop (half * 6) |>.take 6
